@@ -61,6 +61,8 @@ type Case struct {
 	Ops  []Op   `json:"ops"`
 	// CrashAll opens every snapshot of every operation (thorough tier).
 	CrashAll bool `json:"crash_all,omitempty"`
+	// Avoid switches on the generator/runner measures that steer around known findings.
+	Avoid bool `json:"avoid,omitempty"`
 }
 
 const (
@@ -70,6 +72,8 @@ const (
 	opCreateIndex = "createindex"
 	opDropIndex   = "dropindex"
 	opAddView     = "addview"
+	opRefreshView = "refreshviews"
+	opPatchCol    = "patchcol"
 	opCreate      = "create"
 	opUpdate      = "update"
 	opDelete      = "delete"
@@ -84,6 +88,8 @@ const (
 	opRemP2PCol = "remp2pcol"
 	opAddP2PDoc = "addp2pdoc"
 	opRemP2PDoc = "remp2pdoc"
+	// create a document and make it a P2P document at once (each node does both before the other node starts)
+	opCreateP2PDoc = "createp2pdoc"
 )
 
 type weighted struct {
@@ -95,13 +101,13 @@ func kindsOf(mode string) []weighted {
 	// rapid's first, small draws pick the head of the list: the most useful kinds come first
 	base := []weighted{
 		{opCreate, 18}, {opRestart, 14}, {opCreateIndex, 12}, {opPatch, 10}, {opUpdate, 9}, {opSetActive, 7}, {opAddSchema, 6},
-		{opDropIndex, 5}, {opDelete, 5}, {opAddView, 2},
+		{opDropIndex, 5}, {opDelete, 5}, {opPatchCol, 4}, {opAddView, 2}, {opRefreshView, 1},
 	}
 	switch mode {
 	case "acp":
 		base = append([]weighted{{opAddRel, 14}, {opDelRel, 5}}, base...)
 	case "p2p":
-		base = append([]weighted{{opSetRep, 14}, {opAddP2PDoc, 8}, {opAddP2PCol, 8}, {opDelRep, 7}, {opRemP2PCol, 4}, {opRemP2PDoc, 4}}, base...)
+		base = append([]weighted{{opSetRep, 14}, {opAddP2PDoc, 8}, {opAddP2PCol, 8}, {opCreateP2PDoc, 5}, {opDelRep, 7}, {opRemP2PCol, 4}, {opRemP2PDoc, 4}}, base...)
 	}
 	return base
 }
@@ -143,9 +149,14 @@ func drawOp(t *rapid.T, mode string) Op {
 	case opAddView:
 		o.C = small.Draw(t, "col")
 		o.N = rapid.IntRange(0, 1).Draw(t, "name")
-	case opCreate:
+		o.B = rapid.Bool().Draw(t, "materialized")
+	case opPatchCol:
 		o.C = small.Draw(t, "col")
-		o.V = rapid.IntRange(0, 40).Draw(t, "seed")
+		o.V = small.Draw(t, "version")
+		o.B = rapid.Bool().Draw(t, "active")
+	case opCreate, opCreateP2PDoc:
+		o.C = small.Draw(t, "col")
+		o.V = rapid.IntRange(0, 255).Draw(t, "seed")
 		o.D = small.Draw(t, "related")
 		o.X = rapid.IntRange(0, 2).Draw(t, "owner")
 	case opUpdate:
@@ -181,6 +192,7 @@ func drawCase(t *rapid.T, mode string) Case {
 	if mode == "" {
 		c.Mode = rapid.SampledFrom([]string{"core", "core", "core", "acp"}).Draw(t, "mode")
 	}
+	c.Avoid = rapid.Bool().Draw(t, "avoidKnown")
 	n := rapid.IntRange(5, 30).Draw(t, "n")
 	// every history starts with a schema so that the rest has something to act on
 	first := drawOp(t, c.Mode)
@@ -217,6 +229,9 @@ func (in *Info) add(s string, n int) { in.Count[s] += n }
 
 func labelsOf(c Case, in *Info) []string {
 	out := []string{"mode:" + c.Mode}
+	if c.Avoid {
+		out = append(out, "known-finding-avoidance-on")
+	}
 	for f := range in.Flags {
 		out = append(out, f)
 	}
